@@ -73,7 +73,7 @@ PROPS = {
              rule="Requests with only-if-cached (alone and with max-stale / no-cache / max-age / min-fresh) against store states empty, fresh, stale, no-cache, must-revalidate, other variant only, corrupted entry (Conn-level mutation), SWR-eligible. Store faults include operation timeouts (context.DeadlineExceeded from Get).",
              require_probes=["C18/network-touched"], technique="deterministic simulation: upstream-call attribution by goroutine lineage (foreground and background)"),
     "C19": P(["growth"], 119, runs=(700, 30000), budget=(40, 900),
-             rule="A finite alphabet of <=4 URIs x <=4 header combinations (optionally an unsafe method) repeated for 8N requests (N=40 quick, 100-500 thorough) against origins using Vary (incl. '*' and changing sets), validation, stale-while-revalidate and 1-60 s lifetimes; store footprint recorded at N, 2N, 4N, 8N; one third of the runs end with an unsafe request to every URI.",
+             rule="A finite alphabet of <=4 URIs x <=4 header combinations (optionally an unsafe method) repeated for 8N requests (N=40 quick, 100-250 thorough) against origins using Vary (incl. '*' and changing sets), validation, stale-while-revalidate and 1-60 s lifetimes; store footprint recorded at N, 2N, 4N, 8N; one third of the runs end with an unsafe request to every URI.",
              require_probes=["C19/keys-unbounded", "C19/invalidation-leak"], technique="deterministic simulation: long histories on a virtual clock, footprint trend oracle at N/2N/4N/8N"),
     "C20": P(["swr", "swr", "swrreuse"], 120,
              rule="SWR-eligible stale entries with and without validators; background origin latency 0..timeout-1ns, timeout, timeout+1ns, 10x timeout, never; outcomes 304 / 200 / 5xx / error / reset mid-body; WithSWRTimeout unset, 0, negative, 1ns, 1s, 5s, 60s; caller context cancelled before / after return.",
